@@ -27,6 +27,19 @@ def den_sig(world, den):
     return seam.terms_sig(const, fpart, gpart)
 
 
+def den_scale(den):
+    """Largest non-constant coefficient of a denotation, capped at 1: the scale at which a row of tiny coefficients
+    (eps * ||x||^2 <= eps) has to be compared so that losing its whole variable part is not lost in the tolerance."""
+    ws = [abs(w) for key, w in den.items() if key[0] != "1" and w != 0]
+    return min(1.0, max(ws)) if ws else 1.0
+
+
+def expression_scale(expression):
+    const, fpart, gpart = seam.expression_terms(expression)
+    ws = [abs(w) for w in list(fpart.values()) + list(gpart.values()) if w != 0]
+    return min(1.0, max(ws)) if ws else 1.0
+
+
 def unit_F_sig(t):
     return (0.0,) + tuple(float(seam._FP[k][t]) for k in range(K))
 
@@ -89,8 +102,9 @@ def pairs_close(a, b, tol=EPS_EXACT):
     return True
 
 
-def match_sigs(expected, delivered, tol=EPS_EXACT):
-    """Greedy bipartite matching of signatures.  Returns (pairs e->d, unmatched e, unmatched d)."""
+def match_sigs(expected, delivered, tol=EPS_EXACT, scales=None):
+    """Greedy bipartite matching of signatures.  Returns (pairs e->d, unmatched e, unmatched d).
+    `scales[e]` (<= 1) is the coefficient scale of expected row e: both signatures are divided by it first."""
     order = sorted(range(len(delivered)), key=lambda i: delivered[i][1])
     keys = [delivered[i][1] for i in order]
     used = [False] * len(delivered)
@@ -104,6 +118,10 @@ def match_sigs(expected, delivered, tol=EPS_EXACT):
         while p < len(keys) and keys[p] <= es[1] + 10 * tol * s + 1e-12:
             di = order[p]
             if not used[di] and sig_close(es, delivered[di], tol):
+                c = scales[ei] if scales is not None else 1.0
+                if c < 1.0 and not sig_close(tuple(x / c for x in es), tuple(x / c for x in delivered[di]), tol):
+                    p += 1
+                    continue
                 hit = di
                 break
             p += 1
@@ -150,10 +168,13 @@ def build_context(world, rec):
         if den is not None:
             sig = den_sig(world, den["expr"])
             sense = den["sense"]
+            scale = den_scale(den["expr"])
         else:
             sig = seam.expression_sig(obj.expression)
             sense = "eq" if obj.equality_or_inequality == "equality" else "le"
-        items.append({"kind": "cons", "obj": obj, "source": source, "label": label, "sig": sig, "sense": sense})
+            scale = expression_scale(obj.expression)
+        items.append({"kind": "cons", "obj": obj, "source": source, "label": label, "sig": sig, "sense": sense,
+                      "scale": scale})
 
     def add_psd(obj, source, label, dens=None):
         pairs = psd_pairs_from_den(world, dens) if dens is not None else psd_pairs_from_obj(obj)
@@ -198,7 +219,7 @@ def build_context(world, rec):
     # scalar matching
     exp = [it for it in items if it["kind"] == "cons"]
     dsig = [r["sig"] for r in cap.rows]
-    pairs, miss, extra = match_sigs([it["sig"] for it in exp], dsig)
+    pairs, miss, extra = match_sigs([it["sig"] for it in exp], dsig, scales=[it["scale"] for it in exp])
     for ei, di in pairs.items():
         exp[ei]["row"] = di
     ctx.missing = [exp[i] for i in miss]
@@ -666,8 +687,17 @@ def check_fresh(world, name, got):
     except Exception:
         return
     if want is None:
-        return
-    if world.kind[name] == "point" and np.asarray(want).shape == () and want is None:
+        if world.kind[name] == "point" and not world.den.get(name):
+            # a point without any leaf (zero gradient of a stationary point, null_point, x - x): a zero vector of
+            # the dimension of the *latest* instance, like every other point evaluated now
+            dims = set()
+            for lab, leaf in world.leaf_obj.items():
+                if lab.startswith("p") and getattr(leaf, "_value", None) is not None:
+                    dims.add(len(np.asarray(leaf._value).reshape(-1)))
+            g = np.asarray(got, dtype=float).reshape(-1)
+            if dims and (len(g) not in dims or np.any(g != 0)):
+                world.violation("O-FRESH", "stale-value:zero-point",
+                                {"handle": name, "length": int(len(g)), "instance_dimension": sorted(dims)})
         return
     err = compare_value(got, want)
     world.residual("O-FRESH", err if err != float("inf") else 1e300)
